@@ -442,18 +442,42 @@ fn probe(which: &'static str) -> Result<(), Failure> {
             Fields::Named(vec![fld(Some("a"), Ty::Prim(Prim::U8))]),
             vec![Ty::Prim(Prim::Bool)],
         ),
+        // regression probes distilled from seeded changes (C14b/C14e/C14f: `Compact<` nested in the type name of a
+        // field that is not compact itself, written qualified and unqualified; C14d: zero-length array of a non-Copy item)
+        "regress:nested-compact-type-names" => (
+            vec![],
+            Fields::Named(vec![
+                fld(Some("targets"), Ty::Seq(SeqKind::Vec, Box::new(Ty::Compact(Box::new(Ty::Prim(Prim::U32)))))),
+                fld(Some("pair"), Ty::Tuple(vec![Ty::Compact(Box::new(Ty::Prim(Prim::U16))), Ty::Prim(Prim::Bool)])),
+                fld(Some("maybe"), Ty::Opt(Box::new(Ty::Compact(Box::new(Ty::Prim(Prim::U8)))))),
+                fld(Some("arr"), Ty::Array(2, Box::new(Ty::Compact(Box::new(Ty::Prim(Prim::U64)))))),
+                fld(Some("direct"), Ty::Compact(Box::new(Ty::Prim(Prim::U128)))),
+            ]),
+            vec![],
+        ),
+        "regress:zero-length-array-of-non-copy" => (
+            vec![],
+            Fields::Named(vec![
+                fld(Some("a"), Ty::Array(0, Box::new(Ty::Prim(Prim::Str)))),
+                fld(Some("b"), Ty::Array(0, Box::new(Ty::Seq(SeqKind::Vec, Box::new(Ty::Prim(Prim::U8)))))),
+                fld(Some("c"), Ty::Array(3, Box::new(Ty::Prim(Prim::Str)))),
+                fld(Some("d"), Ty::Array(0, Box::new(Ty::Prim(Prim::U8)))),
+            ]),
+            vec![],
+        ),
         _ => (vec![p("T")], Fields::Unit, vec![Ty::Prim(Prim::Bool)]),
     };
+    for name_style in [0u8, 1] {
     let prog = Program {
-        name_style: 0,
+        name_style,
         defs: vec![Def {
             path: vec!["krate".into(), "Probe".into()],
-            params,
+            params: params.clone(),
             docs: vec![],
-            body: Body::Struct(body),
+            body: Body::Struct(body.clone()),
             config_inner: None,
         }],
-        roots: vec![Ty::Def(0, args)],
+        roots: vec![Ty::Def(0, args.clone())],
     };
     let low = crate::lower::lower(&prog);
     let spec = SettingsSpec::default();
@@ -464,6 +488,7 @@ fn probe(which: &'static str) -> Result<(), Failure> {
     for seed in [0u64, 7] {
         rust_value_oracle(&low.registry, &settings, &out, 0, seed)
             .map_err(|(_, m)| Failure::new(m).sig(which).with(json!({"program": prog.to_text()})))?;
+    }
     }
     Ok(())
 }
@@ -503,6 +528,16 @@ impl Property for C14 {
                 signature: "rust-value:cow-wrapped-like-a-struct",
                 what: "Cow<'static, str> and Cow<'static, ()> fields",
                 run: Box::new(|| probe("rust-value:cow-wrapped-like-a-struct")),
+            },
+            Probe {
+                signature: "regress:nested-compact-type-names",
+                what: "Vec<Compact<u32>>, (Compact<u16>, bool), Option<Compact<u8>>, [Compact<u64>; 2], Compact<u128> fields, type names unqualified and path-qualified",
+                run: Box::new(|| probe("regress:nested-compact-type-names")),
+            },
+            Probe {
+                signature: "regress:zero-length-array-of-non-copy",
+                what: "[String; 0], [Vec<u8>; 0], [String; 3], [u8; 0] fields",
+                run: Box::new(|| probe("regress:zero-length-array-of-non-copy")),
             },
             Probe {
                 signature: "rust-value:unit-struct-marker",
